@@ -21,6 +21,23 @@
 #include <atomic>
 #include <cstddef>
 
+#ifdef CPP_UTILITY_VERIF
+namespace dbgroup::verif
+{
+/// @brief A scheduling/observation point defined by the verification harness.
+void Point(const char *name, const void *obj) noexcept;
+
+/// @brief Let the verification harness choose the probe start of a thread.
+auto ThreadHash(size_t hash) noexcept -> size_t;
+}  // namespace dbgroup::verif
+#define CPP_UTILITY_VERIF_POINT(name, obj) ::dbgroup::verif::Point(name, obj);
+#define CPP_UTILITY_VERIF_CONSTEXPR_POINT(name, obj) \
+  if (!__builtin_is_constant_evaluated()) ::dbgroup::verif::Point(name, obj);
+#else
+#define CPP_UTILITY_VERIF_POINT(name, obj)           /* do nothing */
+#define CPP_UTILITY_VERIF_CONSTEXPR_POINT(name, obj) /* do nothing */
+#endif
+
 namespace dbgroup::thread
 {
 /*##############################################################################
